@@ -259,7 +259,7 @@ def ground_c08():
 
 
 # ---- C01: validator binding of the command classes -----------------------------------------------------------------------------
-def replay_binding(cls, comm_addr, offset, value, values, data):
+def replay_binding(cls, comm_addr, offset, value, values, data, check=""):
     """the solver's byte string (and checksum-repaired variants of it), then a native search: well-formed answers to
     *other* operations (other function code, register, value / count, AA55 response type) handed to the validator of
     the command built from the given arguments.  violates = something is accepted that is not a well-formed answer
@@ -311,17 +311,30 @@ def replay_binding(cls, comm_addr, offset, value, values, data):
             for o in (offset, offset ^ 1, 0):
                 for v in (val, val + 1, 0, -1, 1):
                     cands.append(mk(f, o.to_bytes(2, "big") + (v & 0xFFFF).to_bytes(2, "big")))
-    out = {"candidates": len(cands), "violates": False}
-    for d in cands:
+    # well-formed answers to this very request (C02 direction)
+    if aa55:
+        good = [aa("019A" if read else "02B9", bytes(n)) for n in (0, 2, 2 * max(val, 1), 250, 255)]
+        good.append(aa("019A" if read else "02B9", b"\xff" * 255))
+    else:
+        mk = rtu if "Rtu" in cls else tcp
+        good = ([mk(3, bytes([2 * val]) + bytes(2 * val)), mk(3, bytes([2 * val]) + b"\xff" * (2 * val))] if read else
+                [mk(fn, offset.to_bytes(2, "big") + (val & 0xFFFF).to_bytes(2, "big"))])
+    out = {"candidates": len(cands) + len(good), "violates": False}
+    for d in cands + good:
         try:
             acc = cmd.validator(d) is True
-        except (PartialResponseException, RequestRejectedException):
+            why = "returned False"
+        except (PartialResponseException, RequestRejectedException) as e:
             acc = False
+            why = "raised " + type(e).__name__
         except Exception as e:      # noqa
             out.update(violates=True, data=d, raised=repr(e)[:100])
             return out
-        if acc and not wf(d):
+        if acc and not wf(d) and not check.startswith("C02_"):
             out.update(violates=True, data=d, accepted_but_not_wellformed=True)
+            return out
+        if not acc and wf(d) and check.startswith("C02_"):
+            out.update(violates=True, data=d, wellformed_but_not_accepted=why)
             return out
     return out
 
@@ -425,4 +438,47 @@ def replay_fragment_cleared(kind):
         out["runs"].append({"keep_alive": keep_alive, "outcomes": res, "transmissions": len(seen),
                             "fragment_state_at_transmissions": [repr(s) for s in seen]})
         out["violates"] |= bool(dirty)
+    return out
+
+
+def replay_fresh_stamp(kind):
+    """every transmission sends the result of a request_bytes() call of its own: a command whose request_bytes()
+    numbers its calls, a silent peer (so that the request is retransmitted), the same command object sent twice"""
+    out = {"violates": False, "runs": []}
+    for keep_alive in (True, False):
+        loop = asyncio.new_event_loop()
+        stamps, sent = [], []
+
+        class Cmd(ProtocolCommand):
+            def request_bytes(self):
+                stamps.append(b"wire#%d" % len(stamps))
+                return stamps[-1]
+
+        async def go():
+            P = _cls(kind)("127.0.0.1", 8899, 0xf7, 0.02, 2)
+            P.keep_alive = keep_alive
+
+            class Silent(_Peer):
+                def _send(self, payload):
+                    self.sent.append(bytes(payload))
+                    sent.append((bytes(payload), stamps[-1] if stamps else None))
+
+            async def connect():
+                if not P._transport or P._transport.is_closing():
+                    P._transport = Silent(loop, P, [], kind)
+            P._connect = connect
+            cmd = Cmd(b"template", lambda d: d == b"ANSWER")
+            for i in range(2):
+                try:
+                    await cmd.execute(P)
+                except BaseException:      # noqa
+                    pass
+        try:
+            loop.run_until_complete(asyncio.wait_for(go(), 20))
+        finally:
+            loop.close()
+        payloads = [p for p, s in sent]
+        bad = [i for i, (p, s) in enumerate(sent) if p != s] or (len(set(payloads)) != len(payloads))
+        out["runs"].append({"keep_alive": keep_alive, "sent": [p.decode() for p in payloads]})
+        out["violates"] |= bool(bad)
     return out
